@@ -173,6 +173,10 @@ def run(pid, spec, tier):
             import bounded_standin
             import subtype_standin
             out.append(subtype_standin.run(pid, bounded_standin.build_replay))
+        elif name == "bounded_reference_decode":
+            import bounded_standin
+            import refdecode_standin
+            out.append(refdecode_standin.run(pid, bounded_standin.build_replay))
         elif name == "bounded_history_corpus":
             import bounded_standin
             out.append(bounded_standin.history_corpus(pid))
